@@ -1,1 +1,114 @@
-// placeholder
+use super::*;
+use crate::hardcode;
+
+fn bch_format(level_bits: u32, mask: u32) -> u32 {
+    let data = (level_bits << 3) | mask;
+    let mut rem = data;
+    let mut i = 0;
+    while i < 10 {
+        rem = (rem << 1) ^ ((rem >> 9) * 0x537);
+        i += 1;
+    }
+    ((data << 10) | rem) ^ 0x5412
+}
+
+fn bch_version(ver: u32) -> u32 {
+    let mut rem = ver;
+    let mut i = 0;
+    while i < 12 {
+        rem = (rem << 1) ^ ((rem >> 11) * 0x1F25);
+        i += 1;
+    }
+    (ver << 12) | rem
+}
+
+/// C04: the 32-entry format information table is BCH(15,5)(level bits, mask) xor 101010000010010
+#[kani::proof]
+#[kani::unwind(11)]
+fn c04_format_information_table() {
+    let l = any_level_index();
+    let m: usize = kani::any();
+    kani::assume(m < 8);
+    const LEVEL_BITS: [u32; 4] = [1, 0, 3, 2]; // L, M, Q, H (Table 12)
+    let got = hardcode::ecm_to_format_information(ECLS[l], MASKS[m]) as u32;
+    assert_eq!(got, bch_format(LEVEL_BITS[l], m as u32));
+    kani::cover!(l == 3 && m == 7);
+}
+
+/// C04: version information is BCH(18,6)(version) for versions 7..40
+#[kani::proof]
+#[kani::unwind(13)]
+fn c04_version_information_table() {
+    let v = any_version_index();
+    kani::assume(v >= 6);
+    assert_eq!(VERSIONS[v].information(), bch_version(v as u32 + 1));
+    kani::cover!(v == 39);
+}
+
+/// C03: side length and alignment centres follow Annex E for every version
+#[kani::proof]
+#[kani::unwind(9)]
+fn c03_alignment_grid_and_size() {
+    let v = any_version_index();
+    let ver = v + 1;
+    let size = 17 + 4 * ver;
+    assert_eq!(VERSIONS[v].size(), size);
+    let grid = VERSIONS[v].alignment_patterns_grid();
+    if ver == 1 {
+        assert!(grid.is_empty());
+    } else {
+        let n = ver / 7 + 2;
+        let step = if ver == 32 { 26 } else { (ver * 4 + n * 2 + 1) / (n * 2 - 2) * 2 };
+        assert_eq!(grid.len(), n);
+        assert_eq!(grid[0], 6);
+        let mut i = 1;
+        while i < n {
+            // i-th centre from the end: size-7 - (n-1-i)*step
+            assert_eq!(grid[i], size - 7 - (n - 1 - i) * step);
+            i += 1;
+        }
+    }
+    kani::cover!(ver == 32);
+    kani::cover!(ver == 40);
+}
+
+/// C02: block layout table, data-codeword counts, totals, remainder bits and generator degree equal ISO Table 9
+#[kani::proof]
+#[kani::unwind(4)]
+fn c02_block_layout_tables() {
+    let v = any_version_index();
+    let l = any_level_index();
+    let total = raw_data_modules(v + 1) / 8;
+    let rem = raw_data_modules(v + 1) % 8;
+    let nb = NUM_BLOCKS[l][v] as usize;
+    let ec = EC_PER_BLOCK[l][v] as usize;
+    let short = total / nb;
+    let n_long = total % nb;
+    let n_short = nb - n_long;
+    let [(g1c, g1s), (g2c, g2s)] = hardcode::ecc_to_groups(ECLS[l], VERSIONS[v]);
+    assert_eq!(g1c, n_short);
+    assert_eq!(g1s, short - ec);
+    if n_long > 0 {
+        assert_eq!(g2c, n_long);
+        assert_eq!(g2s, short + 1 - ec);
+    } else {
+        assert_eq!(g2c, 0);
+    }
+    assert_eq!(hardcode::data_codewords(VERSIONS[v], ECLS[l]), total - ec * nb);
+    assert_eq!(hardcode::data_bits(VERSIONS[v], ECLS[l]), 8 * (total - ec * nb));
+    assert_eq!(VERSIONS[v].max_bytes(), total);
+    assert_eq!(VERSIONS[v].missing_bits(), rem);
+    assert_eq!(hardcode::get_polynomial(VERSIONS[v], ECLS[l]).len(), ec + 1);
+    kani::cover!(v == 39 && l == 3);
+    kani::cover!(n_long > 0);
+}
+
+/// C06: character-count indicator widths per version class and mode
+#[kani::proof]
+fn c06_cci_bits() {
+    let v = any_version_index();
+    let m: usize = kani::any();
+    kani::assume(m < 3);
+    assert_eq!(hardcode::cci_bits(VERSIONS[v], MODES[m]), iso_cci_bits(v, m));
+    kani::cover!(v == 26 && m == 0);
+}
